@@ -97,8 +97,11 @@ pub fn generate(tier: &str, rng: &mut Prng) -> Vec<Case> {
     let pb = [0i64, 1, 2, P / 2, P / 2 + 1, P - 2, P - 1];
     for &a in &pb {
         for &b in &pb {
-            for op in ["u32f_add", "u32f_sub", "u32f_mul"] {
+            for op in ["u32f_add", "u32f_sub", "u32f_mul", "u32f_add_assign", "u32f_sub_assign", "u32f_mul_assign"] {
                 ops.push(Case::new(format!("{op} {a} {b}")));
+            }
+            if b != 0 {
+                ops.push(Case::new(format!("u32f_div {a} {b}")));
             }
         }
         ops.push(Case::new(format!("u32f_inv {a}")));
@@ -109,7 +112,7 @@ pub fn generate(tier: &str, rng: &mut Prng) -> Vec<Case> {
     }
     for _ in 0..(if thorough { 20000 } else { 1500 }) {
         let (a, b) = (rng.range(0, P - 1), rng.range(0, P - 1));
-        let op = *rng.pick(&["u32f_add", "u32f_sub", "u32f_mul"]);
+        let op = *rng.pick(&["u32f_add", "u32f_sub", "u32f_mul", "u32f_add_assign", "u32f_sub_assign", "u32f_mul_assign"]);
         ops.push(Case::new(format!("{op} {a} {b}")));
         ops.push(Case::new(format!("u32f_new {}", rng.range(-(1 << 26), 1 << 26))));
         if rng.chance(1, 8) {
@@ -204,7 +207,7 @@ pub fn generate(tier: &str, rng: &mut Prng) -> Vec<Case> {
 
 pub fn oracle(op: &[&str], out: &str) -> Verdict {
     match op[0] {
-        "u32f_add" | "u32f_sub" | "u32f_mul" | "u32f_inv" | "u32f_new" | "u32f_balanced" => {
+        "u32f_add" | "u32f_sub" | "u32f_mul" | "u32f_inv" | "u32f_new" | "u32f_balanced" | "u32f_add_assign" | "u32f_sub_assign" | "u32f_mul_assign" | "u32f_div" => {
             if out.starts_with("PANIC") {
                 return Verdict::Fail(format!("{} panicked: {out}", op[0]));
             }
@@ -212,9 +215,21 @@ pub fn oracle(op: &[&str], out: &str) -> Verdict {
             let b: i128 = if op.len() > 2 { op[2].parse().unwrap() } else { 0 };
             let p = P as i128;
             let want: i128 = match op[0] {
-                "u32f_add" => (a + b).rem_euclid(p),
-                "u32f_sub" => (a - b).rem_euclid(p),
-                "u32f_mul" => (a * b).rem_euclid(p),
+                "u32f_add" | "u32f_add_assign" => (a + b).rem_euclid(p),
+                "u32f_sub" | "u32f_sub_assign" => (a - b).rem_euclid(p),
+                "u32f_mul" | "u32f_mul_assign" => (a * b).rem_euclid(p),
+                "u32f_div" => {
+                    // a * b^(p-2) mod p
+                    let (mut r, mut base, mut e) = (1i128, b.rem_euclid(p), p - 2);
+                    while e > 0 {
+                        if e & 1 == 1 {
+                            r = r * base % p;
+                        }
+                        base = base * base % p;
+                        e >>= 1;
+                    }
+                    a.rem_euclid(p) * r % p
+                }
                 "u32f_new" => a.rem_euclid(p),
                 "u32f_balanced" => {
                     if a > p / 2 {
